@@ -20,6 +20,7 @@ from common import *
 import recsolver
 sys.path.insert(0, os.path.join(VERIF, 'gen'))
 import nlgen
+import c12_poly
 
 SCALE = 1024          # coefficient tokens handed to the Lean model: coef * SCALE (exact for our dyadics)
 SEG_LETTERS = set('CLOVFGJSbrkKxd')
@@ -787,6 +788,26 @@ def judge(ck, c, r, mline, stats, rng):
                 if got != want:
                     bad = (x, got, want)
                     break
+            # exact comparison of the content: both sides expanded to one canonical polynomial form (rational coefficients,
+            # abs/max/min as atoms over canonical arguments); where the converter used variable bounds the forms differ
+            # legitimately and the exact point evaluation above is what decides
+            try:
+                c12_poly.BOX['bounds'] = fv.bounds
+                pf = c12_poly.file_poly(fv, tok, lin)
+                pd = c12_poly.DeliveredPoly(d, fv.nvars, recsolver.num).objective(e)
+                if pf == pd:
+                    stats['content']['identical polynomial form'] = stats['content'].get('identical polynomial form', 0) + 1
+                else:
+                    atoms = any(a[0] != 'v' for pp in (pf, pd) for mm in pp for a in mm)
+                    if not atoms and not bad:
+                        ck.add_violation('select:content-coefficients', 'delivered objective %d and objective %d of the file are different polynomials although they agree at the sampled points: delivered %s, file %s' %
+                                         (p, f + 1, pd.show()[:300], pf.show()[:300]), rep)
+                    if os.environ.get('C12_DEBUG_POLY') and atoms:
+                        print('POLYDIFF file:', pf.show()[:200], '| delivered:', pd.show()[:200], '| bounds', fv.bounds, '| expr', fv.exprs.get(tok))
+                    key = 'forms differ (abs/max/min simplified with bounds), decided by evaluation' if atoms else 'forms differ, no atoms'
+                    stats['content'][key] = stats['content'].get(key, 0) + 1
+            except c12_poly.NotPolynomial as ex_:
+                stats['content']['not expanded: %s' % ex_] = stats['content'].get('not expanded: %s' % ex_, 0) + 1
             if bad:
                 ck.add_violation('select:content', 'delivered objective %d differs from objective %d of the file: at x=%s it evaluates to %s, the file objective to %s' % (p, f + 1, [str(v) for v in bad[0]], bad[1], bad[2]), rep)
             stats['objkind'][e['kind']] = stats['objkind'].get(e['kind'], 0) + 1
@@ -1056,34 +1077,14 @@ COVERAGE = os.environ.get('VERIF_COVERAGE') == '1'
 
 
 def refine_failing(ck, failing):
-    """Lean reports a failing `theorem … := rfl` at the first line of the declaration *including its doc comment*;
-    common.failing_decls attributes such a line to the preceding declaration.  Recompute the names of failing C12_*
-    theorems from the error lines with declaration spans that start at the doc comment."""
+    """common.failing_decls blames the preceding declaration for errors Lean reports on a doc-comment line (failing
+    `:= rfl`); recompute the failing C12_* theorems with checks/failing_spans.py (spans start at the doc comment)"""
+    from failing_spans import failing_decls_spans
     tail = ck.cov.get('lake_output_tail', '')
-    errs = [int(m.group(1)) for m in re.finditer(r'error: MpVerif/C12/Props\.lean:(\d+):\d+:', tail)]
-    if not errs:
+    names = failing_decls_spans(tail, 'MpVerif/C12/Props.lean', LEAN)
+    if not names:
         return failing
-    lines = open(os.path.join(LEAN, 'MpVerif', 'C12', 'Props.lean')).read().split('\n')
-    starts = []       # (first line of the declaration incl. doc comment, name)
-    doc = None
-    for i, ln in enumerate(lines, 1):
-        if ln.startswith('/--') and doc is None:
-            doc = i
-        m = re.match(r'^\s*(?:theorem|def|example|lemma)\s+([\w.\']+)?', ln)
-        if m:
-            starts.append((doc if doc is not None else i, m.group(1) or 'example@%d' % i))
-            doc = None
-        elif ln.strip() and not ln.startswith('/--') and doc is not None and '-/' in ln and not re.match(r'^\s*(theorem|def|example|lemma)', lines[i] if i < len(lines) else ''):
-            pass
-    names = []
-    for L in errs:
-        cur = None
-        for st, nm in starts:
-            if st <= L:
-                cur = nm
-        if cur and cur not in names:
-            names.append(cur)
-    keep = [f for f in failing if not re.match(r'^C12_\w+$', f.split(' ')[0])]
+    keep = [f for f in failing if not re.match(r'^C12_\w+$', f.split(' ')[0]) and not f.startswith('MpVerif/C12/Props.lean:')]
     return names + keep
 
 
@@ -1228,7 +1229,7 @@ def run(ck):
     nfiles = 80 if ck.tier == 'quick' else 800
     maxobj = 4 if ck.tier == 'quick' else 6
     stats = {'outcome': {}, 'objkind': {}, 'auxcon': {}, 'cmp': 0, 'nobj_hist': {}, 'mutation': {}, 'format': {'text': 0, 'binary': 0},
-             'k_class': {}, 'multi': {}, 'channel': {}, 'extra': {}, 'reduced_runs': 0, 'text_vs_binary_runs': 0, 'expr_ops': {}}
+             'k_class': {}, 'multi': {}, 'channel': {}, 'extra': {}, 'content': {}, 'reduced_runs': 0, 'text_vs_binary_runs': 0, 'expr_ops': {}}
     cases = []
     cid = 0
     for text, row, col, opts, note, mutation in corpus_cases():
@@ -1401,6 +1402,7 @@ def run(ck):
     ck.cov['rule'] = 'distinct (NL file, format, option sequence) triples run through the real driver and compared with the Lean model and the oracle'
     ck.cov['exhaustive'] = False
     ck.cov['generator_histogram'] = {k: stats[k] for k in ('outcome', 'objkind', 'auxcon', 'nobj_hist', 'mutation', 'format', 'k_class', 'multi', 'channel', 'extra', 'expr_ops')}
+    ck.cov['generator_histogram']['content_comparison'] = stats['content']
     ck.cov['generator_histogram']['altsol_files_checked'] = stats.get('altsol_files', 0)
     ck.cov['generator_histogram']['objsuffix_cases_checked'] = stats.get('objsuffix_checked', 0)
     covf = os.path.join(VERIF, 'design_notes', 'coverage', 'C12_last.json')
@@ -1450,7 +1452,7 @@ def replay(ck, path):
     r = run_case(exe, wdir, c)
     ml = FileView(c.text).model_line(c.optlist)
     p = subprocess.run([drv], input=ml + '\n', capture_output=True, text=True)
-    stats = {'outcome': {}, 'objkind': {}, 'auxcon': {}, 'cmp': 0}
+    stats = {'outcome': {}, 'objkind': {}, 'auxcon': {}, 'cmp': 0, 'content': {}}
     il = judge(ck, c, r, p.stdout.strip(), stats, nlgen.Rng(ck.seed))
     print('options (in order):', c.optlist, '| mp_options:', c.mpopts, '| recsolver_options:', c.envopts, '| argv:', c.argv, '| -AMPL:', c.ampl, '| format:', 'binary' if c.binary else 'text')
     print('implementation :', il, '| outcome', classify(r, c.ampl))
